@@ -85,6 +85,7 @@ static void diff_statics(void) {
 
 /* ---- C20: allocator interposition (-Wl,--wrap=malloc,...): fail the k-th request made during the call ---- */
 void *__real_malloc(size_t); void __real_free(void *); void *__real_realloc(void *, size_t); void *__real_calloc(size_t, size_t);
+static int pre_errno;
 static volatile int al_active; static long al_count, al_fail_at, al_failed, al_frees; static void *al_live[256]; static int al_nlive;
 static void al_add(void *p) { if (p && al_nlive < 256) al_live[al_nlive++] = p; }
 static void al_del(void *p) { for (int i = 0; i < al_nlive; i++) if (al_live[i] == p) { al_live[i] = al_live[--al_nlive]; al_frees++; return; } }
@@ -193,11 +194,12 @@ int main(int argc, char **argv) {
             for (size_t k = 0; k < sz; k++) blk[i].start[k] = (uint8_t)(hexval(hex[2 * k]) * 16 + hexval(hex[2 * k + 1]));
             /* bytes of the mapped pages outside the block: fixed filler (never compared) */
         }
-        sscanf(p, " %d%n", &nargs, &n); p += n; vstart = nargs; al_fail_at = -1;
+        sscanf(p, " %d%n", &nargs, &n); p += n; vstart = nargs; al_fail_at = -1; pre_errno = 0;
         { int ntok = nargs, j = 0;
         for (int t = 0; t < ntok; t++) {
             char tok[64]; sscanf(p, " %63s%n", tok, &n); p += n;
             if (tok[0] == 'K') { al_fail_at = strtol(tok + 1, 0, 10); nargs--; continue; }   /* not an argument */
+            if (tok[0] == 'E') { pre_errno = (int)strtol(tok + 1, 0, 10); nargs--; continue; }  /* errno on entry (left over from some earlier call) */
             int i = j++;
             args[i].tag = tok[0];
             if (tok[0] == 'N') args[i].u = 0;
@@ -209,7 +211,7 @@ int main(int argc, char **argv) {
             else if (tok[0] == 'V') { vstart = i + 1; }
         }
         if (vstart > nargs) vstart = nargs; }
-        hn = 0; fault_sig = 0; errno = 0; have_cap = 0; caplen = 0; have_tr = 0; trn = 0; snap_statics();
+        hn = 0; fault_sig = 0; errno = pre_errno; have_cap = 0; caplen = 0; have_tr = 0; trn = 0; snap_statics();
         al_count = 0; al_failed = 0; al_frees = 0; al_nlive = 0;
         OUT("%s ret=", id);
         if (!sigsetjmp(jb, 1)) {
